@@ -45,7 +45,7 @@ func (c *Ctx) spFor(ssoURL, sloURLIdp string, keyName, method string, post bool)
 		SignatureMethod: method,
 		IDPMetadata: &saml.EntityDescriptor{EntityID: idpEntity, IDPSSODescriptors: []saml.IDPSSODescriptor{{
 			SingleSignOnServices: []saml.Endpoint{{Binding: saml.HTTPRedirectBinding, Location: ssoURL}, {Binding: saml.HTTPPostBinding, Location: ssoURL}},
-			SSODescriptor: saml.SSODescriptor{SingleLogoutServices: []saml.Endpoint{{Binding: saml.HTTPRedirectBinding, Location: sloURLIdp}, {Binding: saml.HTTPPostBinding, Location: sloURLIdp}}},
+			SSODescriptor:        saml.SSODescriptor{SingleLogoutServices: []saml.Endpoint{{Binding: saml.HTTPRedirectBinding, Location: sloURLIdp}, {Binding: saml.HTTPPostBinding, Location: sloURLIdp}}},
 		}}}}
 	return s
 }
@@ -608,11 +608,114 @@ func (c *Ctx) genC12() {
 		seen[id] = true
 		c.emit("msgid", []string{encBytes(r)}, encBytes([]byte(id)), orc)
 	}
+	ps := 150
+	if !c.quick() {
+		ps = 4000
+	}
+	c.postSequences(ps)
 	m := 800
 	if !c.quick() {
 		m = 20000
 	}
 	c.codecCases(m)
+}
+
+// postSequences: "the POST form's field base64-decodes to a well-formed message with the configured issuer, destination
+// … and the given IDs, and RelayState round-trips byte-for-byte … for all sequences of message creations". A sequence
+// of 1–6 creations of the three message kinds on one ServiceProvider; every form is kept and all of them are read
+// only after the last creation (as a server that has several replies in flight does).
+func (c *Ctx) postSequences(n int) {
+	now := baseTime
+	saml.TimeNow = func() time.Time { return now }
+	type made struct {
+		kind, id, relay, field, dest string
+		out, snap                    []byte
+	}
+	for i := 0; i < n; i++ {
+		ep := idpEndpoints[c.rng.Intn(len(idpEndpoints))]
+		method := ""
+		if c.chance(0.3) {
+			method = dsig.RSASHA256SignatureMethod
+		}
+		s := c.spFor(ep, ep, "sp", method, true)
+		saml.RandReader = &detReader{c: c}
+		L := 1 + c.rng.Intn(6)
+		var ms []made
+		var kinds []string
+		why := ""
+		impl := safely(func() string {
+			for j := 0; j < L; j++ {
+				relay := relayStates[c.rng.Intn(len(relayStates))]
+				var m made
+				switch c.rng.Intn(3) {
+				case 0:
+					req, err := s.MakeAuthenticationRequest(ep, saml.HTTPPostBinding, saml.HTTPPostBinding)
+					if err != nil {
+						return "err"
+					}
+					m = made{kind: "AuthnRequest", id: req.ID, relay: relay, field: "SAMLRequest", dest: ep, out: req.Post(relay)}
+				case 1:
+					req, err := s.MakeLogoutRequest(ep, relayStates[c.rng.Intn(len(relayStates))]+"n")
+					if err != nil {
+						return "err"
+					}
+					m = made{kind: "LogoutRequest", id: req.ID, relay: relay, field: "SAMLRequest", dest: ep, out: req.Post(relay)}
+				default:
+					resp, err := s.MakeLogoutResponse(ep, fmt.Sprintf("id-req-%d", j))
+					if err != nil {
+						return "err"
+					}
+					m = made{kind: "LogoutResponse", id: resp.ID, relay: relay, field: "SAMLResponse", dest: ep, out: resp.Post(relay)}
+				}
+				m.snap = append([]byte{}, m.out...)
+				ms = append(ms, m)
+				kinds = append(kinds, m.kind)
+			}
+			return "ok"
+		})
+		if impl == "ok" {
+			for j, m := range ms {
+				tag := fmt.Sprintf("key=post-form-sequence creation #%d of %d (%s, id %s)", j+1, len(ms), m.kind, m.id)
+				if !bytes.Equal(m.out, m.snap) {
+					why = tag + ": the returned form changed after later messages were created"
+					break
+				}
+				v, nv := inputValOf(m.out, m.field)
+				xmlb, err := base64.StdEncoding.DecodeString(v)
+				if nv != 1 || err != nil {
+					why = tag + ": the form does not carry exactly one base64 " + m.field + " field"
+					break
+				}
+				var hdr struct {
+					XMLName     xml.Name
+					ID          string `xml:",attr"`
+					Destination string `xml:",attr"`
+					Issuer      string `xml:"urn:oasis:names:tc:SAML:2.0:assertion Issuer"`
+				}
+				if err := xml.Unmarshal(xmlb, &hdr); err != nil {
+					why = tag + ": the field does not decode to a well-formed message"
+					break
+				}
+				if hdr.XMLName.Local != m.kind || hdr.ID != m.id || hdr.Destination != m.dest || hdr.Issuer != spEntity {
+					why = fmt.Sprintf("%s: the field decodes to %s id %q destination %q issuer %q", tag, hdr.XMLName.Local, hdr.ID, hdr.Destination, hdr.Issuer)
+					break
+				}
+				// an HTML parser turns CR and CRLF in the document into LF before anything else (input-stream preprocessing),
+				// so a hidden field cannot carry a bare CR literally; that is HTML, not the library, and is left out
+				nl := strings.NewReplacer("\r\n", "\n", "\r", "\n")
+				rs, nrs := inputValOf(m.out, "RelayState")
+				if nrs != 1 || rs != nl.Replace(m.relay) {
+					why = fmt.Sprintf("%s: RelayState field reads %q (%d fields), given %q", tag, rs, nrs, m.relay)
+					break
+				}
+			}
+		} else {
+			why = "key=post-form-sequence a POST-binding message creation failed or panicked: " + impl
+		}
+		c.count("c12-post-sequence-length", fmt.Sprint(L))
+		c.count("c12-post-sequence-signed", fmt.Sprint(method != ""))
+		c.emitOneWay("postseq", encStrListRaw(kinds), impl, why)
+	}
 }
 
 var sigMethods = []string{dsig.RSASHA1SignatureMethod, dsig.RSASHA256SignatureMethod, dsig.RSASHA384SignatureMethod, dsig.RSASHA512SignatureMethod,
@@ -651,4 +754,108 @@ func (c *Ctx) genC13() {
 		}
 	}
 	c.xmlSignedMessages()
+	c.keyRotation()
+}
+
+// keyRotation: "the signature the SP attaches verifies under the certificate in the SP's published metadata" — on one
+// ServiceProvider value whose key pair (and, separately, whose method) is replaced between messages, each message is
+// checked against the certificate Metadata() publishes at that moment.
+func (c *Ctx) keyRotation() {
+	now := baseTime
+	saml.TimeNow = func() time.Time { return now }
+	plans := []struct {
+		keys    []string
+		methods []string
+	}{
+		{[]string{"sp", "rsa1024", "sp"}, []string{dsig.RSASHA256SignatureMethod, dsig.RSASHA256SignatureMethod, dsig.RSASHA256SignatureMethod}},
+		{[]string{"ec256", "ec384", "ec256"}, []string{dsig.ECDSASHA256SignatureMethod, dsig.ECDSASHA256SignatureMethod, dsig.ECDSASHA256SignatureMethod}},
+		{[]string{"sp", "sp", "rsa1024"}, []string{dsig.RSASHA1SignatureMethod, dsig.RSASHA512SignatureMethod, dsig.RSASHA512SignatureMethod}},
+		{[]string{"ec521", "ec521", "ec256"}, []string{dsig.ECDSASHA384SignatureMethod, dsig.ECDSASHA512SignatureMethod, dsig.ECDSASHA256SignatureMethod}},
+	}
+	for pi, pl := range plans {
+		s := c.spFor(idpEndpoints[pi%2], idpEndpoints[0], pl.keys[0], pl.methods[0], true)
+		saml.RandReader = &detReader{c: c}
+		for step := range pl.keys {
+			k := c.key(pl.keys[step])
+			s.Key, s.Certificate, s.SignatureMethod = k.Key, k.Cert, pl.methods[step]
+			// the certificate a peer would use: the signing key descriptor of the metadata published now
+			var pub *x509.Certificate
+			for _, kd := range s.Metadata().SPSSODescriptors[0].KeyDescriptors {
+				if kd.Use == "signing" && len(kd.KeyInfo.X509Data.X509Certificates) > 0 {
+					if der, err := base64.StdEncoding.DecodeString(kd.KeyInfo.X509Data.X509Certificates[0].Data); err == nil {
+						pub, _ = x509.ParseCertificate(der)
+					}
+				}
+			}
+			why := ""
+			impl := safely(func() string {
+				if pub == nil {
+					why = "key=metadata-signing-cert published metadata carries no parsable signing certificate"
+					return "ok"
+				}
+				fail := func(kind, what string) {
+					if why == "" {
+						why = fmt.Sprintf("key=signed-message-after-rotation:%s step %d of plan %d (key %s, method %s): %s", kind, step+1, pi, pl.keys[step], pl.methods[step], what)
+					}
+				}
+				// redirect binding: detached signature over the octets in the URL
+				s.IDPMetadata.IDPSSODescriptors[0].SingleSignOnServices[0].Binding = saml.HTTPRedirectBinding
+				u, err := s.MakeRedirectAuthenticationRequest("rs-" + fmt.Sprint(step))
+				s.IDPMetadata.IDPSSODescriptors[0].SingleSignOnServices[0].Binding = saml.HTTPPostBinding
+				if err != nil {
+					fail("AuthnRequest/Redirect", "refused: "+err.Error())
+				} else {
+					raw := u.RawQuery
+					i, j := strings.Index(raw, "SAMLRequest="), strings.Index(raw, "&Signature=")
+					sg := rawParam(raw, "Signature")
+					if i < 0 || j < i || len(sg) != 1 {
+						fail("AuthnRequest/Redirect", "no Signature parameter")
+					} else {
+						sigB, _ := base64.StdEncoding.DecodeString(sg[0])
+						if !verifyDetached(pub.PublicKey, pl.methods[step], []byte(raw[i:j]), sigB) {
+							fail("AuthnRequest/Redirect", "the detached signature does not verify under the published certificate")
+						}
+					}
+				}
+				env := func(kind string, xmlb []byte, err error) {
+					if err != nil {
+						fail(kind, "refused: "+err.Error())
+						return
+					}
+					doc := etree.NewDocument()
+					if err := doc.ReadFromBytes(xmlb); err != nil || doc.Root() == nil {
+						fail(kind, "not well-formed")
+					} else if doc.Root().FindElement("./Signature") == nil {
+						fail(kind, "no signature")
+					} else if err := verifyEnveloped(doc.Root(), pub); err != nil {
+						fail(kind, "the enveloped signature does not verify under the published certificate: "+err.Error())
+					}
+				}
+				h, err := s.MakePostAuthenticationRequest("rs")
+				var xb []byte
+				if err == nil {
+					xb, err = formMessage(h)
+				}
+				env("AuthnRequest/POST", xb, err)
+				lr, err := s.MakeLogoutRequest(idpEndpoints[0], "alice")
+				if err == nil {
+					xb = elBytes(lr.Element())
+				}
+				env("LogoutRequest", xb, err)
+				lp, err := s.MakeLogoutResponse(idpEndpoints[0], "id-x")
+				if err == nil {
+					xb = elBytes(lp.Element())
+				}
+				env("LogoutResponse", xb, err)
+				arq, err := s.MakeArtifactResolveRequest("artifact")
+				if err == nil {
+					xb = elBytes(arq.Element())
+				}
+				env("ArtifactResolve", xb, err)
+				return "ok"
+			})
+			c.count("c13-rotation-step", fmt.Sprint(step+1))
+			c.emitOneWay("rotation", []string{fmt.Sprint(pi), fmt.Sprint(step)}, impl, why)
+		}
+	}
 }
